@@ -53,6 +53,31 @@ def viol(label, witness, **kw):
     return d
 
 
+DUMP_DIR = os.environ.get('SX_DUMP_DIR')          # set by the driver: sampled end-of-path queries for the second solvers
+DUMP_EVERY = int(os.environ.get('SX_DUMP_EVERY', '97'))
+_dump_count = [0]
+
+
+def _dump_query(ctx, negated, answer):
+    """write path condition + negated property as SMT-LIB2 (sampled)"""
+    if not DUMP_DIR:
+        return
+    _dump_count[0] += 1
+    if _dump_count[0] > 3 and _dump_count[0] % DUMP_EVERY:
+        return
+    try:
+        s = z3.Solver()
+        s.add(ctx.solver.assertions())
+        if negated is not None:
+            s.add(negated)
+        txt = s.to_smt2().replace('ubv_to_int', 'bv2nat')
+        name = '%d-%d-%s.smt2' % (os.getpid(), _dump_count[0], answer)
+        with open(os.path.join(DUMP_DIR, name), 'w') as f:
+            f.write('(set-logic ALL)\n' + txt)
+    except Exception:
+        pass
+
+
 def verdict(ctx, props, witness=None, sample=None):
     """props: list of (label, condition).  Discharges `path condition =>
     conj(props)`; on `sat` builds the witness from the model."""
@@ -74,8 +99,10 @@ def verdict(ctx, props, witness=None, sample=None):
         return out
     if c is False:
         r = ctx.check()
+        _dump_query(ctx, None, str(r))
     else:
         r = ctx.check(z3.Not(c))
+        _dump_query(ctx, z3.Not(c), str(r))
     if r == z3.unsat:
         out = {'k': 'ok'}
         if ctx.want_sample:
